@@ -367,7 +367,8 @@ def s_isinstance(obj, cls):
 
 def make_builtins(strict_isinstance=True):
     d = dict(_bi.__dict__)
-    d.update(min=s_min, max=s_max, len=s_len, float=s_float, int=s_int, sum=s_sum, any=s_any, all=s_all, round=s_round)
+    d.update(min=s_min, max=s_max, len=s_len, float=s_float, int=s_int, sum=s_sum, any=s_any, all=s_all, round=s_round,
+             print=lambda *a, **k: None)
     d['_sx_rt_'] = __import__('sx.rt', fromlist=['rt'])
     if not strict_isinstance:
         d['isinstance'] = s_isinstance
